@@ -10,9 +10,9 @@ pub const COND_TOKS_WIDE: [&str; 26] = [
     "$a", "$ab", "$", "and", "AND", "&&", "or", "OR", "||", "not", "!", "(", ")", "all", "any", "none", "of", "them", "0", "1", "42",
     "99999999999999999999999999", "x", "-", "them$a", " ",
 ];
-pub const MATCH_TOKS: [&str; 30] = [
+pub const MATCH_TOKS: [&str; 34] = [
     ".x", ".", "x", ".\"a b\"", "\"", "==", "is", "<", "<=", "=", ">", ">=", "~=", "&=", "'a'", "\"b\"", "'1'", "'1.5'", "'['", "'", "none",
-    "some", "true", "false", "@", "@.y", "rule(", "r1", ")", "garbage",
+    "some", "true", "false", "@", "@.y", "rule(", "r1", ")", "garbage", "'none'", "\"true\"", "'False'", "'SOME'",
 ];
 
 fn join(toks: &[&str], mask: u32) -> String {
@@ -103,7 +103,7 @@ fn cond_case(s: String, tag: &str) -> Value {
 
 fn match_case(s: String, tag: &str) -> Value {
     // tables for every quoted literal that may appear
-    let lits: Vec<String> = ["a", "b", "1", "1.5", "[", "none", "some", "true", "false", "", "a' 'a", "1' '1"].iter().map(|x| x.to_string()).collect();
+    let lits: Vec<String> = ["a", "b", "1", "1.5", "[", "none", "some", "true", "false", "", "a' 'a", "1' '1", "False", "SOME", "True", "NONE"].iter().map(|x| x.to_string()).collect();
     let ext = ext_tables(&lits, &[], &lits);
     json!({"op": "parse_match", "s": s, "ext": ext, "tag": tag, "nt": true})
 }
